@@ -59,6 +59,8 @@ def definitions(rng):
         pos = set(rng.sample(range(total), total - n_en))
         defs.append(IG.shape(rng, did, total, [1 if i in pos else 0 for i in range(total)], generics=rng.choice(["none", "tywhere", "tyconst"]) if n_en else "none"))
         did += 1
+    for pos in ("first", "middle", "last"):
+        defs.append(IG.default_disabled_def(did, pos)); did += 1
     # sizes around the limits of narrow integers: 200 enabled variants (128..254), 300 with some disabled (> 255)
     defs.append(IG.shape(rng, did, 200, [0] * 200, kinds="unit")); did += 1
     defs.append(IG.shape(rng, did, 300, [1 if i % 13 == 4 else 0 for i in range(300)], kinds="unit")); did += 1
